@@ -181,42 +181,59 @@ Init == \E c \in Configs : InitWith(c)
 Spec == Init /\ [][Next]_vars /\ Fair
 
 \* ------------------------------------------------------------------ properties
-Drains == cfg.StopAfter > NSets + 1
-ErrIdx == IF cfg.ErrAt > 0 /\ cfg.ErrAt <= NSets + 1 THEN cfg.ErrAt ELSE 0
+\* Stated over (configuration, what the consumer received, result of the call, number of data sets
+\* created, how far the reader got ahead), so that the same definitions judge the model's state
+\* (invariants below) and the observations recorded from the real code (TraceParallel).
+OkIdx(g) == {i \in 1..Len(g) : g[i].t = "ok"}
+NSetsOf(c) == Len(c.Sizes)
+DrainsP(c) == c.StopAfter > NSetsOf(c) + 1
+ErrIdxP(c) == IF c.ErrAt > 0 /\ c.ErrAt <= NSetsOf(c) + 1 THEN c.ErrAt ELSE 0
 \* C07
-Paired == \A i \in OkItems : got[i].fill > 0 /\ got[i].setout = F(got[i].fill)
-NoDup == \A i, j \in OkItems : i # j => got[i].fill # got[j].fill
-AllDelivered == (Terminated /\ result = "ok" /\ ErrIdx = 0 /\ Drains /\ cfg.RDInitFailAt = 0)
-                   => {got[i].fill : i \in OkItems} = 1..NSets /\ got[Len(got)].t = "end"
-InOrder1 == cfg.NW = 1 => \A i, j \in OkItems : i < j => got[i].fill < got[j].fill
+P_Paired(c, g) == \A i \in OkIdx(g) : g[i].fill > 0 /\ g[i].setout = F(g[i].fill)
+P_NoDup(c, g) == \A i, j \in OkIdx(g) : i # j => g[i].fill # g[j].fill
+P_AllDelivered(c, g, res) == (res = "ok" /\ ErrIdxP(c) = 0 /\ DrainsP(c) /\ c.RDInitFailAt = 0)
+                               => {g[i].fill : i \in OkIdx(g)} = 1..NSetsOf(c) /\ g # <<>> /\ g[Len(g)].t = "end"
+P_InOrder1(c, g) == c.NW = 1 => \A i, j \in OkIdx(g) : i < j => g[i].fill < g[j].fill
+\* C15
+P_ErrOnce(c, g) == Cardinality({i \in 1..Len(g) : g[i].t = "err"}) <= (IF ErrIdxP(c) > 0 THEN 1 ELSE 0)
+P_ErrNoLater(c, g) == ErrIdxP(c) > 0 => \A i \in OkIdx(g) : g[i].fill < ErrIdxP(c)
+P_ErrDrain(c, g, res) == (ErrIdxP(c) > 0 /\ DrainsP(c) /\ res = "ok" /\ c.RDInitFailAt = 0 /\ ~c.PerRecord)
+                           => /\ {g[i].fill : i \in OkIdx(g)} = 1..(ErrIdxP(c) - 1)
+                              /\ \E i \in 1..Len(g) : g[i].t = "err"
+                              /\ g # <<>> /\ g[Len(g)].t = "end"
+P_InitFailuresSurface(c, res) ==
+  /\ res \notin {"panic", "hang"}
+  /\ (c.RInitFail /\ res \notin {"err_dinit"} => res = "err_rinit")
+  /\ (res = "err_rinit" => c.RInitFail)
+  /\ (res = "err_dinit" => c.DInitFailAt > 0 /\ c.DInitFailAt <= c.Q + 1)
+  /\ (c.DInitFailAt > 0 /\ c.DInitFailAt <= c.Q + 1 /\ ~c.RInitFail => res = "err_dinit")
+P_ClosedOnlyAfterInitFailure(c, g) == (\E i \in 1..Len(g) : g[i].t = "closed") => c.RInitFail
+\* C16
+P_BoundedSets(c, nd) == nd <= c.Q + 1
+P_ReaderAhead(c, ma) == ma <= c.Q
+P_RecycledOnly(c, g) == \A i \in OkIdx(g) : g[i].d \in 1..(c.Q + 1)
+
+Paired == P_Paired(cfg, got)
+NoDup == P_NoDup(cfg, got)
+AllDelivered == Terminated => P_AllDelivered(cfg, got, result)
+InOrder1 == P_InOrder1(cfg, got)
 RecordsPaired == \A i \in OkItems : ~got[i].werr =>
                     /\ Len(got[i].out) >= Len(got[i].recs)
                     /\ \A k \in 1..Len(got[i].recs) : got[i].out[k] = G(got[i].recs[k])
 RecordsInOrder == \A i \in OkItems : \A k \in 1..(Len(got[i].recs) - 1) : got[i].recs[k] < got[i].recs[k + 1]
-SetsAreWhatReaderProduced ==
-  \A i \in OkItems : Len(got[i].recs) = cfg.Sizes[got[i].fill]
-\* C15
-ErrOnce == Cardinality({i \in 1..Len(got) : got[i].t = "err"}) <= (IF ErrIdx > 0 THEN 1 ELSE 0)
-ErrNoLater == ErrIdx > 0 => \A i \in OkItems : got[i].fill < ErrIdx
-ErrDrain == (Terminated /\ ErrIdx > 0 /\ Drains /\ result = "ok" /\ cfg.RDInitFailAt = 0 /\ ~cfg.PerRecord)
-               => /\ {got[i].fill : i \in OkItems} = 1..(ErrIdx - 1)
-                  /\ \E i \in 1..Len(got) : got[i].t = "err"
-                  /\ got[Len(got)].t = "end"
-InitFailuresSurface ==
-  Terminated => /\ (cfg.RInitFail /\ result \notin {"err_dinit"} => result = "err_rinit")
-                /\ (result = "err_rinit" => cfg.RInitFail)
-                /\ (result = "err_dinit" => cfg.DInitFailAt > 0 /\ cfg.DInitFailAt <= cfg.Q + 1)
-                /\ (cfg.DInitFailAt > 0 /\ cfg.DInitFailAt <= cfg.Q + 1 /\ ~cfg.RInitFail => result = "err_dinit")
+SetsAreWhatReaderProduced == \A i \in OkItems : Len(got[i].recs) = cfg.Sizes[got[i].fill]
+ErrOnce == P_ErrOnce(cfg, got)
+ErrNoLater == P_ErrNoLater(cfg, got)
+ErrDrain == Terminated => P_ErrDrain(cfg, got, result)
+InitFailuresSurface == Terminated => P_InitFailuresSurface(cfg, result)
 PerRecordErrorsReturned ==
-  Terminated /\ cfg.PerRecord => /\ (result = "err_read" => ErrIdx > 0 /\ got[Len(got)].t = "err")
+  Terminated /\ cfg.PerRecord => /\ (result = "err_read" => ErrIdxP(cfg) > 0 /\ got[Len(got)].t = "err")
                                  /\ (result = "err_rdinit" => cfg.RDInitFailAt > 0)
                                  /\ ((\E i \in 1..Len(got) : got[i].t = "err") => result \in {"err_read"})
-\* a closed result channel is only ever seen when the reader could not be initialised
-ClosedOnlyAfterInitFailure == (\E i \in 1..Len(got) : got[i].t = "closed") => cfg.RInitFail
-\* C16
-BoundedSets == nds <= cfg.Q + 1
-ReaderAhead == maxAhead <= cfg.Q
-RecycledOnly == \A i \in OkItems : got[i].d \in 1..(cfg.Q + 1)
+ClosedOnlyAfterInitFailure == P_ClosedOnlyAfterInitFailure(cfg, got)
+BoundedSets == P_BoundedSets(cfg, nds)
+ReaderAhead == P_ReaderAhead(cfg, maxAhead)
+RecycledOnly == P_RecycledOnly(cfg, got)
 \* C08
 Termination == <>Terminated
 =============================================================================
